@@ -58,6 +58,7 @@ def plan(tier):
     units += [('props', tier, fam[k::24]) for k in range(24)]
     units += [('matrix', tier, k, 16) for k in range(16)]
     units.append(('sharing', tier))
+    units.append(('illtyped', tier))
     return units
 
 
@@ -109,6 +110,12 @@ def transitions(obj, join_preds):
 
         out.append(('replace_var_reference(k -> @w)', lambda: [obj.replace_var_reference('k', A.HplVarReference('@w'))]))
         out.append(('replace_var_reference(k -> m.f)', lambda: [obj.replace_var_reference('k', A.HplFieldAccess(A.HplFieldAccess(A.HplThisMessage(), 'm'), 'f'))]))
+        # the same with a replacement that is already narrowed to "some primitive": positions that accept a
+        # primitive keep the very object, stricter positions must narrow a copy
+        from hpl.types import DataType
+
+        out.append(('replace_var_reference(k -> primitive @w)', lambda: [obj.replace_var_reference('k', A.HplVarReference('@w').cast(DataType.PRIMITIVE))]))
+        out.append(('replace_var_reference(k -> primitive fld)', lambda: [obj.replace_var_reference('k', A.HplFieldAccess(A.HplThisMessage(), 'fld').cast(DataType.PRIMITIVE))]))
     if k == 'pred':
         out.append(('negate', lambda: [obj.negate()]))
         for i, q in enumerate(join_preds):
@@ -196,6 +203,28 @@ def run(unit):
             r.count('validated')
             if i % 997 == 0:
                 r.sample({'initial': text})
+    elif what == 'illtyped':
+        # texts that must be rejected (C05's families): whatever the parser nevertheless hands out is a state
+        from hplmc import sigmatrix
+
+        texts = []
+        doms = ['{1, 2}', '[0 to 3]', '{"a"}', '{True}']
+        uses = ['not @i', '@i = "a"', '@i > 0', '@i and p', '@i + 1 = y']
+        weak = ['@i = @v', '@i in {@v}']
+        for d in doms:
+            for u in uses:
+                texts += [f'forall i in {d}: {u}', f'exists i in {d}: ({weak[0]} and {u})', f'forall i in {d}: ({u} and {weak[1]})', f'exists i in {d}: ({weak[1]} and ({weak[0]} and {u}))']
+        texts += [absyn.expr_text(t) for _d, t in sigmatrix.invalid_cases()]
+        texts += ['x > 0 and x = y and x = "a"', 'x and (x = y) and x > 0', 'not x and x in {y} and len(x) > 0', '1 = "a"', '(x + 1) = "a" or p', 'len(xs) = True']
+        for text in texts:
+            r.count('evaluations')
+            for kind in ('pred', 'expr'):
+                st, obj = impl.try_parse(kind, '{ ' + text + ' }' if kind == 'pred' else text)
+                r.outcomes[f'illtyped:{st}'] += 1
+                if st == 'ok':
+                    explore(obj, f'parse_{"predicate" if kind == "pred" else "expression"}({"{ " + text + " }" if kind == "pred" else text})', r, 1, seen)
+            r.count('validated')
+        r.sample({'must_be_rejected': texts[1]})
     elif what == 'sharing':
         # predicates in which one variable occurs in positions of different strictness (=, set element, index,
         # arithmetic, function argument, quantifier domain bound): replacing it puts ONE object in all of them
@@ -259,7 +288,7 @@ def replay(w):
 def describe(tier):
     b = bounds(tier)
     return {
-        'rule': f"initial states: parser results for every Bool/Num/Str term with <= {b['nodes']} nodes (fields, alias fields, literals, 4 arithmetic / 4 comparison / 4 logical operators, abs len sum max min gcd bool str, sets, ranges, indexing, inclusion, both quantifiers) as expression and predicate, the C12 property family, the signature matrix (every operator and built-in function with every valid argument shape; depth 1), and a 13-text family in which one variable occurs in positions of different strictness; transitions: simplify, split_and elements, refactor_reference halves, both replacements, replace_var_reference with one shared untyped object (a variable / a field chain), negate, join with 6 predicates, canonical_form outputs; BFS to depth {b['depth']} with states deduplicated on the typed lift; the per-node invariant is evaluated in every state.",
+        'rule': f"initial states: parser results for every Bool/Num/Str term with <= {b['nodes']} nodes (fields, alias fields, literals, 4 arithmetic / 4 comparison / 4 logical operators, abs len sum max min gcd bool str, sets, ranges, indexing, inclusion, both quantifiers) as expression and predicate, the C12 property family, the signature matrix (every operator and built-in function with every valid argument shape; depth 1), a 13-text family in which one variable occurs in positions of different strictness, and ~900 texts that must be rejected (bound variables outside their domain's element type, the invalid half of the signature matrix): whatever the parser accepts of them becomes a state; transitions: simplify, split_and elements, refactor_reference halves, both replacements, replace_var_reference with one shared untyped object (a variable / a field chain), negate, join with 6 predicates, canonical_form outputs; BFS to depth {b['depth']} with states deduplicated on the typed lift; the per-node invariant is evaluated in every state.",
         'bounds': b,
         'exhaustive': True,
         'assumptions': ['invariant table in hplmc/ref/types.py is the reference; bound-variable use is checked with the weakest reading (non-empty intersection with the element type)'],
